@@ -46,14 +46,14 @@ def main():
     try:
         demo = os.path.join(src, "demo.py")
         if os.path.exists(demo):
-            res["demo_clean_rc"], o = sh([PY, demo], cwd=wt, timeout=600)
+            res["demo_clean_rc"], o = sh([PY, demo], cwd=wt, timeout=600, env={"PYTHONPATH": wt})
         rc, o = sh(["git", "apply", os.path.join(src, "patch.diff")], cwd=wt)
         if rc:
             res["error"] = "patch does not apply: " + o[-300:]
             print(json.dumps(res))
             return 2
         if os.path.exists(demo):
-            res["demo_patched_rc"], o = sh([PY, demo], cwd=wt, timeout=600)
+            res["demo_patched_rc"], o = sh([PY, demo], cwd=wt, timeout=600, env={"PYTHONPATH": wt})
             res["demo_patched_tail"] = o[-300:]
         if "--tests" in flags:
             rc, o = sh(f"{PY} -m pytest -q -p no:cacheprovider --timeout=900 2>&1 | tail -3", cwd=wt, timeout=3000)
